@@ -216,6 +216,7 @@ def main(tier, seed):
             # a rewrite on the live object (another point is inserted and removed again), then a read through the same handle
             extra = rpoint(rng, reserved_ok=False)
             extra["tags"], extra["meas"] = {"zz_extra": "1"}, "zz_extra"
+            extra = dbtie.sanitize_for(kw, extra)      # (F32 applies to this point's strings as well)
             try:
                 db.insert(M.real_point(tf, extra))
                 db.remove(tf.MeasurementQuery() == "zz_extra")
